@@ -21,6 +21,10 @@ RULE = ("Each evaluation is one seeded history (3-10 ops: build with threads 1..
         "plus distinct normalised build histories (sequence of thread counts per object) that toggle between "
         "single-process and multi-process mode at least once.")
 
+# a run whose result depends on which unrelated runs were executed earlier in the same process is hidden state
+# carried between calls - covered by this property's statement
+HISTORY_DEPENDENCE_IS_VIOLATION = True
+
 COMPONENTS = {
     "real": ["aotools.turbulence.slopecovariance (CovarianceMatrix, wfs_covariance, mirror, reconstructor)", "numpy", "scipy.special",
              "pickle / multiprocessing.reduction.ForkingPickler across the simulated process boundary",
